@@ -21,6 +21,7 @@
 #include <mm/auto_ckpt.h>
 #include <mm/msg_allocator.h>
 #include <serial/serial.h>
+#include <verif/rsv.h>
 
 /// The flag used in ScheduleNewEvent() to keep track of silent execution
 static __thread bool silent_processing = false;
@@ -43,6 +44,10 @@ void ScheduleNewEvent(lp_id_t receiver, simtime_t timestamp, unsigned event_type
 		return;
 	}
 
+#ifdef ROOT_SIM_CORE_VERIF
+	if(unlikely(silent_processing))
+		RSV_EV(RSV_EV_SILENT_SEND, NULL, receiver, event_type, timestamp);
+#endif
 	if(unlikely(silent_processing))
 		return;
 
@@ -61,9 +66,11 @@ void ScheduleNewEvent(lp_id_t receiver, simtime_t timestamp, unsigned event_type
 	nid_t dest_nid = lid_to_nid(receiver);
 	if(dest_nid != nid) {
 		mpi_remote_msg_send(msg, dest_nid);
+		RSV_EV(RSV_EV_SEND_REMOTE, msg, current_lp - lps, dest_nid, timestamp);
 		array_push(current_lp->p.p_msgs, mark_msg_remote(msg));
 	} else {
 		atomic_store_explicit(&msg->flags, 0U, memory_order_relaxed);
+		RSV_EV(RSV_EV_SEND_LOCAL, msg, current_lp - lps, 0, timestamp);
 		msg_queue_insert(msg);
 		array_push(current_lp->p.p_msgs, mark_msg_sent(msg));
 	}
@@ -79,6 +86,7 @@ static inline void checkpoint_take(struct lp_ctx *lp)
 {
 	timer_uint t = timer_hr_new();
 	model_allocator_checkpoint_take(&lp->mm_state, array_count(lp->p.p_msgs));
+	RSV_EV(RSV_EV_CKPT, lp, array_count(lp->p.p_msgs), 0, 0.0);
 	stats_take(STATS_CKPT_SIZE, lp->mm_state.full_ckpt_size);
 	stats_take(STATS_CKPT, 1);
 	stats_take(STATS_CKPT_TIME, timer_hr_value(t));
@@ -101,6 +109,7 @@ void process_lp_init(struct lp_ctx *lp)
 	common_msg_process(lp, msg);
 	lp->p.bound = 0.0;
 	array_push(lp->p.p_msgs, msg);
+	RSV_EV(RSV_EV_PROCESS, msg, lp - lps, 1, 0.0);
 	model_allocator_checkpoint_next_force_full(&lp->mm_state);
 	checkpoint_take(lp);
 }
@@ -113,6 +122,10 @@ void process_lp_fini(struct lp_ctx *lp)
 	current_lp = lp;
 	global_config.dispatcher(lp - lps, 0, LP_FINI, NULL, 0, lp->state_pointer);
 
+#ifdef ROOT_SIM_CORE_VERIF
+	for(array_count_t i = 0; i < array_count(lp->p.p_msgs); ++i)
+		RSV_EV(RSV_EV_FINI_ENTRY, array_get_at(lp->p.p_msgs, i), lp - lps, i, 0.0);
+#endif
 	for(array_count_t i = 0; i < array_count(lp->p.p_msgs); ++i) {
 		struct lp_msg *msg = array_get_at(lp->p.p_msgs, i);
 		if(is_msg_local_sent(msg))
@@ -149,6 +162,7 @@ static inline void silent_execution(const struct lp_ctx *lp, array_count_t last_
 		while(is_msg_sent(msg))
 			msg = array_get_at(lp->p.p_msgs, ++last_i);
 
+		RSV_EV(RSV_EV_SILENT, msg, lp - lps, last_i, msg->dest_t);
 		global_config.dispatcher(msg->dest, msg->dest_t, msg->m_type, msg->pl, msg->pl_size, state_p);
 		stats_take(STATS_MSG_SILENT, 1);
 	} while(++last_i < past_i);
@@ -172,12 +186,15 @@ static inline void send_anti_messages(struct process_ctx *proc_p, array_count_t 
 			if(is_msg_remote(msg)) {
 				msg = unmark_msg_remote(msg);
 				nid_t dest_nid = lid_to_nid(msg->dest);
+				RSV_EV(RSV_EV_ANTI_REMOTE, msg, dest_nid, 0, msg->dest_t);
 				mpi_remote_anti_msg_send(msg, dest_nid);
 				msg_allocator_free_at_gvt(msg);
 			} else {
 				msg = unmark_msg_sent(msg);
+				RSV_YIELD(RSV_SITE_FLAG_ANTI);
 				uint32_t f =
 				    atomic_fetch_add_explicit(&msg->flags, MSG_FLAG_ANTI, memory_order_relaxed);
+				RSV_EV(RSV_EV_ANTI_LOCAL, msg, f, 0, msg->dest_t);
 				if(f & MSG_FLAG_PROCESSED)
 					msg_queue_insert(msg);
 			}
@@ -186,7 +203,9 @@ static inline void send_anti_messages(struct process_ctx *proc_p, array_count_t 
 			msg = array_get_at(proc_p->p_msgs, ++i);
 		}
 
+		RSV_YIELD(RSV_SITE_FLAG_UNPROCESSED);
 		uint32_t f = atomic_fetch_add_explicit(&msg->flags, -MSG_FLAG_PROCESSED, memory_order_relaxed);
+		RSV_EV(RSV_EV_UNPROCESS, msg, f, 0, msg->dest_t);
 		if(!(f & MSG_FLAG_ANTI))
 			msg_queue_insert(msg);
 		stats_take(STATS_MSG_ROLLBACK, 1);
@@ -202,11 +221,13 @@ static inline void send_anti_messages(struct process_ctx *proc_p, array_count_t 
 static void do_rollback(struct lp_ctx *lp, array_count_t past_i)
 {
 	timer_uint t = timer_hr_new();
+	RSV_EV(RSV_EV_ROLLBACK, lp, past_i, array_count(lp->p.p_msgs), 0.0);
 	send_anti_messages(&lp->p, past_i);
 	array_count_t last_i = model_allocator_checkpoint_restore(&lp->mm_state, past_i);
 	stats_take(STATS_RECOVERY_TIME, timer_hr_value(t));
 	stats_take(STATS_ROLLBACK, 1);
 	silent_execution(lp, last_i, past_i);
+	RSV_EV(RSV_EV_ROLLBACK_DONE, lp, past_i, last_i, 0.0);
 }
 
 /**
@@ -266,6 +287,7 @@ static inline void handle_remote_anti_msg(struct lp_ctx *lp, struct lp_msg *a_ms
 			// Sadly this is an early remote anti-message
 			a_msg->next = lp->p.early_antis;
 			lp->p.early_antis = a_msg;
+			RSV_EV(RSV_EV_EARLY_ANTI, a_msg, lp - lps, 0, a_msg->dest_t);
 			return;
 		}
 		msg = array_get_at(lp->p.p_msgs, --i);
@@ -280,6 +302,7 @@ static inline void handle_remote_anti_msg(struct lp_ctx *lp, struct lp_msg *a_ms
 	}
 
 	msg->raw_flags |= MSG_FLAG_ANTI;
+	RSV_EV(RSV_EV_REMOTE_ANTI, msg, lp - lps, i, msg->dest_t);
 	do_rollback(lp, i);
 	termination_on_lp_rollback(lp, msg->dest_t);
 	msg_allocator_free(msg);
@@ -300,6 +323,7 @@ static inline bool check_early_anti_messages(struct process_ctx *proc_p, struct 
 	do {
 		if(a_msg->raw_flags == m_id && a_msg->m_seq == m_seq) {
 			*prev_p = a_msg->next;
+			RSV_EV(RSV_EV_EARLY_MATCH, msg, 0, 0, msg->dest_t);
 			msg_allocator_free(msg);
 			msg_allocator_free(a_msg);
 			return true;
@@ -328,6 +352,7 @@ static void handle_anti_msg(struct lp_ctx *lp, struct lp_msg *msg, uint32_t last
 		termination_on_lp_rollback(lp, msg->dest_t);
 		auto_ckpt_register_bad(&lp->auto_ckpt);
 	}
+	RSV_EV(RSV_EV_ANTI_DROP, msg, last_flags, 0, msg->dest_t);
 	msg_allocator_free(msg);
 }
 
@@ -351,6 +376,7 @@ static void handle_straggler_msg(struct lp_ctx *lp, struct lp_msg *msg)
  */
 void process_msg(void)
 {
+	RSV_YIELD(RSV_SITE_PROCESS_MSG);
 	struct lp_msg *msg = msg_queue_extract();
 	if(unlikely(!msg)) {
 		current_lp = NULL;
@@ -368,7 +394,9 @@ void process_msg(void)
 		lp->p.bound = unlikely(array_is_empty(lp->p.p_msgs)) ? -1.0 : lp->p.bound;
 	}
 
+	RSV_YIELD(RSV_SITE_FLAG_PROCESSED);
 	uint32_t flags = atomic_fetch_add_explicit(&msg->flags, MSG_FLAG_PROCESSED, memory_order_relaxed);
+	RSV_EV(RSV_EV_EXTRACT, msg, flags, 0, msg->dest_t);
 	if(unlikely(flags & MSG_FLAG_ANTI)) {
 		handle_anti_msg(lp, msg, flags);
 		lp->p.bound = unlikely(array_is_empty(lp->p.p_msgs)) ? -1.0 : lp->p.bound;
@@ -388,6 +416,7 @@ void process_msg(void)
 	common_msg_process(lp, msg);
 	lp->p.bound = msg->dest_t;
 	array_push(lp->p.p_msgs, msg);
+	RSV_EV(RSV_EV_PROCESS, msg, lp - lps, 0, msg->dest_t);
 
 	auto_ckpt_register_good(&lp->auto_ckpt);
 	if(auto_ckpt_is_needed(&lp->auto_ckpt))
